@@ -26,7 +26,7 @@ func describeLive(v any, depth int) *rNode {
 	if depth > 40 {
 		return &rNode{typ: "leaf", val: "<too deep>"}
 	}
-	if s, ok := stackage.ConvertStack(v); ok && s.IsInit() {
+	if s, ok := AsStack(v); ok && s.IsInit() {
 		d, _ := stackage.VerifDump(s)
 		n := &rNode{typ: "stack", id: d.HdrAddr, kind: s.Kind(), paren: s.IsParen()}
 		for _, e := range d.Slots {
@@ -34,7 +34,7 @@ func describeLive(v any, depth int) *rNode {
 		}
 		return n
 	}
-	if c, ok := stackage.ConvertCondition(v); ok && c.IsInit() {
+	if c, ok := AsCond(v); ok && c.IsInit() {
 		d, _ := stackage.VerifDump(c)
 		n := &rNode{typ: "cond", id: d.CfgAddr, paren: c.IsParen(), kw: c.Keyword()}
 		if op := c.Operator(); op != nil {
